@@ -118,6 +118,14 @@ class Scenario:
 
             def visit_Lambda(self, node):
                 return node
+
+            def visit_IfExp(self, node):
+                # a conditional expression on a flag is control flow: take the branch the scenario selects
+                try:
+                    taken = node.body if sc.truth(node.test) else node.orelse
+                except Undecided:
+                    return self.generic_visit(node)
+                return self.visit(taken)
         return T().visit(copy.deepcopy(e))
 
     def run(self, stmts):
